@@ -266,6 +266,55 @@ func (w *World) footprintChecks() *footprintResult {
 		}
 		res.checks = append(res.checks, gc)
 	}
+	// the element types of the immutable profile tables are never written outside init: a store through a
+	// pointer taken from a table is a write to shared state even though no package-level variable is named
+	tableTypes := map[string]string{}
+	var walk func(t types.Type, from string, depth int)
+	walk = func(t types.Type, from string, depth int) {
+		if depth > 6 {
+			return
+		}
+		switch u := t.(type) {
+		case *types.Named:
+			if st, ok := u.Underlying().(*types.Struct); ok && u.Obj().Pkg() != nil && isVerifiedPkgPath(u.Obj().Pkg().Path()) {
+				k := structKey(u)
+				if _, seen := tableTypes[k]; seen {
+					return
+				}
+				tableTypes[k] = from
+				for i := 0; i < st.NumFields(); i++ {
+					walk(st.Field(i).Type(), from, depth+1)
+				}
+			}
+		case *types.Pointer:
+			walk(u.Elem(), from, depth+1)
+		case *types.Slice:
+			walk(u.Elem(), from, depth+1)
+		case *types.Array:
+			walk(u.Elem(), from, depth+1)
+		case *types.Map:
+			walk(u.Elem(), from, depth+1)
+		}
+	}
+	for _, g := range globals {
+		if w.immutableGlobal(g) {
+			walk(g.Type().(*types.Pointer).Elem(), globalName(g), 0)
+		}
+	}
+	mut := w.mutatedTypes()
+	var tks []string
+	for k := range tableTypes {
+		tks = append(tks, k)
+	}
+	sort.Strings(tks)
+	for _, k := range tks {
+		gc := groundCheck{name: "frame.table-type." + k, ok: true}
+		if why, bad := mut[k]; bad {
+			gc.ok = false
+			gc.why = "objects of type " + k + " are reachable from the immutable table " + tableTypes[k] + " and " + why + " stores into a field of such an object"
+		}
+		res.checks = append(res.checks, gc)
+	}
 	var sn []string
 	for n := range stateful {
 		sn = append(sn, n)
